@@ -7,7 +7,7 @@ not through the public getters).  A part of the checks of C08, C09, C13 and C16;
 import glob, json, os, subprocess
 from vlib import *
 
-KINDS = {"C08": {"sub"}, "C09": {"bind"}, "C10": {"sub", "bind"}, "C13": {"ctr"}, "C16": {"hb"}}
+KINDS = {"C08": {"sub"}, "C09": {"bind"}, "C10": {"sub", "bind"}, "C13": {"ctr"}, "C16": {"hb"}, "C17": {"sub", "bind", "ctr"}}
 
 
 def _validate(path, sc):
@@ -91,7 +91,8 @@ def execute(prop, sc, extra_files=()):
             for (b, _), (d, behf) in zip(pmap(lambda j: _validate(j[0], sc), jobs), jobs):
                 for x in b:
                     try:
-                        x["inputs"] = json.loads(open(behf).read().splitlines()[int(x["mark"])])
+                        if behf:
+                            x["inputs"] = json.loads(open(behf).read().splitlines()[int(x["mark"])])
                     except Exception:
                         pass
                     bad_h.append(x)
